@@ -140,7 +140,7 @@ func watch(what string) {
 					if curMeta != nil {
 						curMeta.violate(prop, "the implementation did not return from "+w+" within 15 s (deadlock or livelock)", w)
 						if curFocus == "" {
-							for _, p := range []string{"C01", "C02", "C03", "C04", "C05", "C06", "C08", "C09", "C10", "C11", "C12"} {
+							for _, p := range []string{"C01", "C02", "C03", "C04", "C05", "C06", "C08", "C09", "C10", "C11", "C12", "C13", "C14", "C15", "C17", "C20"} {
 								curMeta.violate(p, "the implementation did not return from "+w+" within 15 s (deadlock or livelock)", w)
 							}
 						}
